@@ -229,6 +229,9 @@ func (c *End) Inject(p []byte) {
 	c.wr.push(ex, p)
 }
 
+// ReadOffset returns how many bytes this end has read so far.
+func (c *End) ReadOffset() int { return c.rd.readOff }
+
 // PeerClosed reports whether the peer has closed its writing side towards this end.
 func (c *End) PeerClosed() bool { return c.rd.wclosed }
 
